@@ -40,7 +40,12 @@ const (
 	arKey    = 0x20400 // storage key buffer
 	arMemo   = 0x20800 // transfer memo buffer (128 octets)
 	arOut    = 0x20C00 // accumulation output buffer (32 octets)
-	arRWSize = 4096
+	arAList  = 0x20D00 // bless: assigners, 4 octets per core
+	arZList  = 0x20D40 // bless: always-accumulate entries, 12 octets each
+	arHash   = 0x20E00 // 32-octet hash argument (new: code hash, eject: lookup hash)
+	arBlob   = 0x20E40 // provide: 4-octet blob
+	arBig    = 0x21000 // assign: authorizer queue (32*80 octets); designate: validator keys (336*V octets)
+	arRWSize = 8192
 )
 
 type arAsm struct {
@@ -119,6 +124,8 @@ func (a *arAsm) blob() []byte {
 	return p
 }
 
+const arEjectTag = 0x000E1EC7
+
 const arXferGas = 3000 // gas limit handed over with every transfer (pays for the receiver recording it)
 
 // assemble the accumulate program of one abstract service
@@ -146,6 +153,65 @@ func arAssemble(prog []any) []byte {
 			a.storeU8(6, arOut)
 			a.loadImm64(7, arOut)
 			a.ecalli(25)
+		case "spin": // endless loop: out of gas
+			nlab++
+			l := fmt.Sprintf("spin%d", nlab)
+			a.fallthrough_()
+			a.label(l)
+			a.fallthrough_()
+			a.jump(l)
+		case "bless": // bless(m=r7, a=r8, v=r9, r=r10, o=r11, n=r12)
+			for i, x := range op["a"].([]any) {
+				a.storeImmU32(arAList+uint32(4*i), uint32(vfd.I(x)))
+			}
+			z := op["z"].([]any)
+			for i, raw := range z {
+				e := raw.(map[string]any)
+				a.storeImmU32(arZList+uint32(12*i), uint32(vfd.I(e["id"])))
+				a.storeImmU32(arZList+uint32(12*i)+4, uint32(vfd.I(e["gas"])))
+				a.storeImmU32(arZList+uint32(12*i)+8, 0)
+			}
+			a.loadImm64(7, uint64(vfd.I(op["m"])))
+			a.loadImm64(8, arAList)
+			a.loadImm64(9, uint64(vfd.I(op["v"])))
+			a.loadImm64(10, uint64(vfd.I(op["r"])))
+			a.loadImm64(11, arZList)
+			a.loadImm64(12, uint64(len(z)))
+			a.ecalli(14)
+		case "assign": // assign(c=r7, o=r8, a=r9); the specification counts cores from 1
+			a.storeImmU32(arBig, uint32(vfd.I(op["tag"])))
+			a.loadImm64(7, uint64(vfd.I(op["c"])-1))
+			a.loadImm64(8, arBig)
+			a.loadImm64(9, uint64(vfd.I(op["to"])))
+			a.ecalli(15)
+		case "designate": // designate(o=r7)
+			a.storeImmU32(arBig, uint32(vfd.I(op["tag"])))
+			a.loadImm64(7, arBig)
+			a.ecalli(16)
+		case "new": // new(o=r7, l=r8, g=r9, m=r10, f=r11, i=r12)
+			a.storeImmU32(arHash, uint32(vfd.I(op["ctag"])))
+			a.loadImm64(7, arHash)
+			a.loadImm64(8, uint64(vfd.I(op["l"])))
+			a.loadImm64(9, 10)
+			a.loadImm64(10, 10)
+			a.loadImm64(11, 0)
+			if rid := vfd.I(op["rid"]); rid >= 0 {
+				a.loadImm64(12, uint64(rid))
+			} else {
+				a.loadImm64(12, 1<<40)
+			}
+			a.ecalli(18)
+		case "provide": // provide(s=r7, o=r8, z=r9)
+			a.storeImmU32(arBlob, uint32(vfd.I(op["tag"])))
+			a.loadImm64(7, uint64(vfd.I(op["to"])))
+			a.loadImm64(8, arBlob)
+			a.loadImm64(9, 4)
+			a.ecalli(26)
+		case "eject": // eject(d=r7, o=r8); the victim's lookup hash is the fixed tag below
+			a.storeImmU32(arHash, arEjectTag)
+			a.loadImm64(7, uint64(vfd.I(op["v"])))
+			a.loadImm64(8, arHash)
+			a.ecalli(21)
 		case "ckpt":
 			a.ecalli(17)
 		case "panic":
